@@ -170,12 +170,44 @@ func (c *collection) CreateIndex(
 		return client.IndexDescription{}, err
 	}
 	defer txn.Discard(ctx)
+	c.restoreIndexesUnlessCommitted(txn)
 
 	index, err := c.createIndex(ctx, desc)
 	if err != nil {
 		return client.IndexDescription{}, err
 	}
 	return index.Description(), txn.Commit(ctx)
+}
+
+// restoreIndexesUnlessCommitted makes the indexes this collection holds in memory follow the transaction:
+// if it does not commit, they are put back to what they are now.
+func (c *collection) restoreIndexesUnlessCommitted(txn datastore.Txn) {
+	if _, ok := c.indexChangingTxns[txn.ID()]; ok {
+		// an earlier change within the same transaction: what it saved is what to go back to
+		return
+	}
+	if c.indexChangingTxns == nil {
+		c.indexChangingTxns = map[uint64]struct{}{}
+	}
+	c.indexChangingTxns[txn.ID()] = struct{}{}
+
+	indexes := slices.Clone(c.indexes)
+	descriptions := slices.Clone(c.def.Version.Indexes)
+	finished := false
+	restore := func() {
+		if !finished {
+			finished = true
+			delete(c.indexChangingTxns, txn.ID())
+			c.indexes = indexes
+			c.def.Version.Indexes = descriptions
+		}
+	}
+	txn.OnSuccess(func() {
+		finished = true
+		delete(c.indexChangingTxns, txn.ID())
+	})
+	txn.OnError(restore)
+	txn.OnDiscard(restore)
 }
 
 func processCreateIndexRequest(
@@ -352,6 +384,7 @@ func (c *collection) DropIndex(ctx context.Context, indexName string) error {
 		return err
 	}
 	defer txn.Discard(ctx)
+	c.restoreIndexesUnlessCommitted(txn)
 
 	err = c.dropIndex(ctx, indexName)
 	if err != nil {
